@@ -226,7 +226,11 @@ pub fn traces_for(c: &SemCase, t: &mut Tape, n: usize) -> Vec<Trace> {
 fn case(tape: &[u8], rec: &Rec) -> Verdict {
     let mut t = Tape::new(tape);
     let late = t.chance(70);
-    let c = gen_sem_case(&mut t, SemOpts { late_facts: late, ..SemOpts::default() });
+    let nested = t.chance(100);
+    let c = gen_sem_case(&mut t, SemOpts { late_facts: late, nested_signal_assign: nested, ..SemOpts::default() });
+    if nested && c.template {
+        rec.class("templates_whose_signals_may_be_assigned_inside_branches_and_loops");
+    }
     if late {
         rec.class("programs_biased_to_late_facts");
     }
